@@ -178,7 +178,7 @@ func (s *Server) serve(ctx context.Context, listener net.Listener, handler Modbu
 				}
 				verifPoint("conn.closed")
 				s.trackConn(c, false)
-				if s.OnAcceptConnFunc != nil {
+				if s.OnCloseConnFunc != nil {
 					s.OnCloseConnFunc(ctx, conn.conn.RemoteAddr(), s.isShutdown.Load())
 				}
 			}()
